@@ -191,9 +191,31 @@ where
                     print_use_target_wildcard(children, ctx, allocator)
                 }
                 SyntaxKind::VisibilityPub => print_visibility_pub(children, ctx, allocator),
+                SyntaxKind::MatchArmList => {
+                    // arms are separated by commas or by line breaks. An arm whose pattern starts
+                    // with `(` would be parsed as a call of the previous arm's body when it follows
+                    // that arm on the same line: the line break is forced there.
+                    let mut doc = allocator.nil();
+                    for (i, &child) in children.iter().enumerate() {
+                        if i > 0 {
+                            let after_arm = matches!(
+                                ctx.arena.get(children[i - 1]),
+                                mimium_lang::compiler::parser::green::GreenNode::Internal { .. }
+                            );
+                            let opens_postfix = first_token_index(child, ctx)
+                                .is_some_and(|t| ctx.tokens[t].kind == TokenKind::ParenBegin);
+                            doc = doc.append(if after_arm && opens_postfix {
+                                allocator.hardline()
+                            } else {
+                                allocator.space()
+                            });
+                        }
+                        doc = doc.append(cst_to_doc(child, ctx, allocator));
+                    }
+                    doc
+                }
                 SyntaxKind::MatchExpr
                 | SyntaxKind::MatchArm
-                | SyntaxKind::MatchArmList
                 | SyntaxKind::MatchPattern
                 | SyntaxKind::ConstructorPattern
                 | SyntaxKind::TypeDecl
